@@ -299,8 +299,13 @@ def run(ctx):
             ctx.ratio(e, tol)
             if got.shape != want.shape or got.dtype != want.dtype or not (e <= tol):
                 ctx.fail('dask_values_differ', inp, impl=e, model=tol)
+        except Warning:
+            # the warnings-module race (see c11.py): the 'error' filter baseband installs while opening a file was seen by another worker
+            # thread, which then got a Warning raised as an exception - not a property of the reader; counted, the case is dropped
+            ctx.count('warnings_module_thread_race')
         except Exception as e:
             ctx.fail('dask_path_raised', inp, impl=repr(e))
+        X.restore_warning_filters()
 
     # ---- configurations: a small dask 'array.chunk-size' (arrays created inside an operation with automatic chunks are then split
     # along time although the signal's time axis is one chunk); long enough signals to exceed it
